@@ -659,6 +659,39 @@ func (sc *RevScenario) planExchanges(nt *Net, altSeed uint32) {
 		}
 		return genLatency(lt, sc.Prof.LatMax)
 	}
+	// forced permutation of the completion order of the first exchange of
+	// every per-certificate check: altSeed = permFlag | rank
+	permRank := -1
+	if altSeed&permFlag != 0 {
+		permRank = int(altSeed & 0xffff)
+	}
+	defer func() {
+		if permRank < 0 {
+			return
+		}
+		for _, w := range sc.Worlds {
+			m := len(w.Certs) - 1
+			if m < 1 {
+				continue
+			}
+			perm := unrankPerm(m, permRank)
+			for rep := 0; rep < w.reps(); rep++ {
+				for pos := 0; pos < m; pos++ {
+					cp := w.Certs[pos]
+					var first *Exchange
+					switch {
+					case len(cp.OCSP) > 0:
+						first = cp.OCSP[0].X[rep]
+					case len(cp.CRL) > 0:
+						first = cp.CRL[0].XBase[rep]
+					}
+					if first != nil {
+						first.Latency = time.Duration(7*(perm[pos]+1)) * time.Millisecond
+					}
+				}
+			}
+		}
+	}()
 	for _, w := range sc.Worlds {
 		w.fetchSlots = map[string]*fetchSlot{}
 		for _, cp := range w.Certs {
@@ -720,6 +753,39 @@ func (sc *RevScenario) panicsAt(pos int) bool {
 		}
 	}
 	return false
+}
+
+const permFlag = uint32(1) << 31
+
+// unrankPerm returns the rank-th permutation of 0..m-1 (Lehmer code); ranks
+// beyond m! wrap around.
+func unrankPerm(m, rank int) []int {
+	f := 1
+	for i := 2; i <= m; i++ {
+		f *= i
+	}
+	rank %= f
+	items := make([]int, m)
+	for i := range items {
+		items[i] = i
+	}
+	out := make([]int, 0, m)
+	for i := m; i >= 1; i-- {
+		f /= i
+		k := rank / f
+		rank %= f
+		out = append(out, items[k])
+		items = append(items[:k], items[k+1:]...)
+	}
+	return out
+}
+
+func factorial(m int) int {
+	f := 1
+	for i := 2; i <= m; i++ {
+		f *= i
+	}
+	return f
 }
 
 // seedCache pre-populates the cache per plan. Runs inside the bubble at Epoch.
